@@ -195,7 +195,8 @@ Lemma enqueue_spec e s m c s' : enqueue e s m c = Ok s' ->
   s_bank s' = s_bank s /\ s_q s' = s_q s ++ [msg_req m] /\ s_last s' = S (s_last s) /\ r_idx (msg_req m) = S (s_last s) /\
   is_ok (settle e (s_bank s) (msg_req m) c) = true.
 Proof.
-  unfold enqueue. intros H. apply bind_ok in H. destruct H as (x & H1 & H2).
+  unfold enqueue. intros H. destruct (e_blocked e (r_rcpt (msg_req m))); [discriminate|].
+  apply bind_ok in H. destruct H as (x & H1 & H2).
   destruct (Nat.eqb_spec (r_idx (msg_req m)) (S (s_last s))) as [E|]; cbn in H2; [|discriminate].
   inversion H2; subst; cbn. rewrite H1. repeat split; assumption.
 Qed.
@@ -287,3 +288,7 @@ Theorem block_spec_coded_selection : forall e coded ch lt b txs,
     (forall m, In m (s_q s) <-> In m (map ev_req tr)) /\
     (forall v, In v tr -> exists mc, In mc txs /\ ev_req v = msg_req (fst mc)).
 Proof. intros. apply block_spec; [apply sel1c_in|apply sel1c_none|apply sel2c_in]. Qed.
+
+(* a request whose recipient is on bank's blocked-address list is refused by the handler and nothing is stored *)
+Lemma enqueue_blocked_refused e s m c : e_blocked e (r_rcpt (msg_req m)) = true -> enqueue e s m c = Err 12.
+Proof. intros H. unfold enqueue. rewrite H. reflexivity. Qed.
